@@ -19,6 +19,8 @@ Round 2 additions (all optional, the former API is unchanged):
     value at the time of the call is what the wire op (and so the model, which has no aliasing) sees;
   * ["touch", ["obj", ...], field, value]: the caller changes such an object IN PLACE between two calls
     (data dict mutated, timestamp / duration / id assigned) - no operation, so no bucket may change."""
+import copy as _copy
+import json as _json
 import multiprocessing
 import os
 import shutil
@@ -26,6 +28,7 @@ import tempfile
 from datetime import datetime, timedelta, timezone
 
 from . import common
+from . import edgevals as _ev
 from .evutil import BASE, dt, us_of_dt, us_of_td
 
 BACKENDS = ["memory", "sqlite", "peewee"]
@@ -65,11 +68,79 @@ def n_of(s):
 
 
 def data_of(n):
-    return {} if n == 0 else {"x": n}
+    """label -> a FRESH data dict.  0 = {}; small labels = {"x": n}; labels >= RICH_BASE (round 5) = {"x": n, ..edge
+    members..}: text with lone surrogates / astral code points / NUL / U+2028 as values and keys, nested containers,
+    and containers / scalars that are dict / list / str / int SUBCLASSES (harness/edgevals.py) - values every back end
+    of the unchanged tree stores and returns `==` (established by /tmp/fix6-data/probe_roundtrip.py, notes C02.md)."""
+    if n == 0:
+        return {}
+    r = RICH.get(n)
+    if r is None:
+        return {"x": n}
+    plain, style = r
+    d = dict(plain)
+    return _ev.dress(d, style) if style else _copy.deepcopy(d)
+
+
+def _canon(d):
+    return _json.dumps(d, sort_keys=True)
 
 
 def label_of_data(d):
-    return 0 if d == {} else d["x"]
+    """data dict -> label.  A rich value (label >= RICH_BASE) that is not `==` / not the same JSON text as the value
+    of its label comes back as the NEGATIVE label (no model ever produces one: the damage shows as a disagreement
+    and, through the oracles' expected payloads, as a failing input)."""
+    if d == {}:
+        return 0
+    n = d["x"]
+    if isinstance(n, int) and n in RICH:
+        n = int(n)                       # (an int SUBCLASS instance in the styles that dress scalars)
+        want = data_of(n)
+        if not (d == want and _canon(d) == _canon(want)):
+            return -n
+    return n
+
+
+RICH_BASE = 100
+
+
+def _rich_table():
+    vals = []
+    for d in _ev.EDGE_DATA[:8]:                       # lone surrogates, astral, NUL, U+2028: as values and as keys
+        vals.append((d, None))
+    for st in ("odict", "ddict", "listsub", "mixed", "scalars", "all"):
+        vals.append((_ev.NESTED, st))                 # dict / list / str / int subclasses at every depth
+    vals.append(({"title": _ev.EDGE_STRINGS[0], "tags": [_ev.EDGE_STRINGS[1], {"k": [_ev.EDGE_STRINGS[7]]}]}, "mixed"))
+    out = {}
+    for k, (d, st) in enumerate(vals):
+        n = RICH_BASE + k
+        plain = {"x": n}
+        plain.update(d)
+        out[n] = (plain, st)
+    return out
+
+
+RICH = _rich_table()
+RICH_LABELS = sorted(RICH)
+
+
+def rnd_label(rng, p=0.15):
+    """an event data label: mostly the six small ones, with probability p a rich one"""
+    if rng.random() < p:
+        return rng.choice(RICH_LABELS)
+    return rng.randrange(0, 6)
+
+
+def scramble_nested(d):
+    """the caller changes, in place, every container BELOW the top level of a data dict it holds"""
+    stack = [v for v in (d.values() if isinstance(d, dict) else d) if isinstance(v, (dict, list))]
+    while stack:
+        c = stack.pop()
+        stack.extend(v for v in (c.values() if isinstance(c, dict) else c) if isinstance(v, (dict, list)))
+        if isinstance(c, dict):
+            c["touched"] = "by the caller"
+        else:
+            c.append("touched by the caller")
 
 
 def created_of(n):
@@ -302,6 +373,7 @@ def apply_op(st, op, args=None, keep=None):
             o, field, v = args[0], TOUCH_FIELDS[op[1]], op[2]
             if field == "data":
                 d = o.data              # the dict the caller holds: changed in place, not replaced
+                scramble_nested(d)      # .. at every depth: the containers below the top level first
                 d.clear()
                 d.update(data_of(v))
             elif field == "timestamp":
@@ -620,14 +692,14 @@ def first_difference(model_steps, run):
 def rnd_meta(rng, falsy=False):
     lo = 0 if falsy else 1
     return [rng.randrange(lo, 5), rng.randrange(lo, 5), rng.randrange(lo, 5), rng.randrange(0, 4),
-            rng.choice([None, None, rng.randrange(lo, 9)]), rng.choice([0, 0, 1, 2])]
+            rng.choice([None, None, rng.randrange(lo, 9)]), rng.choice([0, 0, 1, 2, 1, 2, rng.choice(RICH_LABELS)])]
 
 
 DURS = [0, 0, 0, 500_000, SEC, SEC, 2 * SEC, 1_500_000, 3 * SEC, 1, 1001, 25 * HOUR]
 
 
 def rnd_ev(rng, pool, handle=None):
-    return [handle, BASE + rng.choice(pool) * SEC, rng.choice(DURS), rng.randrange(0, 6)]
+    return [handle, BASE + rng.choice(pool) * SEC, rng.choice(DURS), rnd_label(rng)]
 
 
 def rnd_window(rng, pool):
@@ -757,7 +829,7 @@ def gen_history(rng, malformed, max_ops=40, reuse=0.0):
         if reuse and ops and ops[-1][0] in ("insert", "insert_many", "replace", "replace_last", "get", "get_event") \
                 and rng.random() < reuse / 2:
             f = rng.choice(TOUCH_FIELDS + ["data"])
-            v = {"data": rng.randrange(0, 6), "timestamp": BASE + rng.choice(pool) * SEC + 1000,
+            v = {"data": rnd_label(rng), "timestamp": BASE + rng.choice(pool) * SEC + 1000,
                  "duration": rng.choice(DURS), "id": rng.randrange(0, 8)}[f]
             ops.append(["touch", ["obj", rng.choice(["passed", "passed", "got"]), rng.randrange(0, 3)], f, v])
             b_dump = rng.choice(sorted(exists)) if exists else b
@@ -974,6 +1046,42 @@ def touch_histories():
     for r in ([["get", 1, 1, None, None]], [["get", 1, -1, None, None]], [["get_event", 1, ["live", 1]]],
               [["insert", 1, x]], [["replace", 1, ["live", 0], x]]):
         out.append((base + r + touches("got") + [["count", 1, None, None]], univ))
+    return out
+
+
+def edge_data_histories():
+    """Deterministic corpus (round 5): every RICH data label - text with a lone high / lone low surrogate, astral code
+    points, NUL, U+2028 as values and as keys; dict / list / str / int SUBCLASSES as containers and scalars at every
+    depth - as bucket data (create, update) and as event data through every kind of write: single insert, bulk insert
+    between innocent neighbours, bulk upsert + insert, replace, replace_last; then the caller changes the data it
+    passed / got in place at every depth (no operation).  One bulk insert of 230 events (three of peewee's 100-row
+    chunks) with rich values inside the first and the last chunk."""
+    out = []
+    m = [1, 1, 1, 0, None, 0]
+    univ = [1, 2, MISSING_BUCKET]
+    for k, n in enumerate(RICH_LABELS):
+        n2 = RICH_LABELS[(k + 5) % len(RICH_LABELS)]
+        ops = [["create", 1, m], ["create", 2, [1, 2, 3, 1, None, n]],
+               ["insert", 1, [None, BASE, SEC, 1]], ["insert", 2, [None, BASE, SEC, 2]],
+               ["insert", 1, [None, BASE + SEC, SEC, n]], ["get_event", 1, ["live", 1]], ["count", 1, None, None],
+               ["insert_many", 1, [[None, BASE + 2 * SEC, 0, 3], [None, BASE + 3 * SEC, SEC, n], [None, BASE + 4 * SEC, 0, 4]]],
+               ["insert_many", 1, [[["live", 0], BASE, 2 * SEC, n2], [None, BASE + 5 * SEC, 0, 5]]],
+               ["insert_many", 2, [[None, BASE + SEC, 0, n]]],
+               ["replace", 1, ["live", 2], [None, BASE + 2 * SEC, SEC, n]],
+               ["get", 1, 1, None, None], ["replace_last", 1, [None, BASE + 6 * SEC, 0, n2]],
+               ["get", 1, -1, None, None], ["metadata", 2], ["buckets"],
+               ["update", 2, None, None, None, None, n2], ["metadata", 2], ["update", 2, 2, None, None, 4, n], ["buckets"],
+               ["insert", 1, [None, BASE + 7 * SEC, SEC, n]],
+               ["touch", ["obj", "passed", 0], "data", n2], ["get", 1, -1, None, None],
+               ["get", 1, 1, None, None], ["touch", ["obj", "got", 0], "data", 1], ["get", 1, -1, None, None],
+               ["get_event", 1, ["live", 1]], ["touch", ["obj", "got", 0], "data", n2], ["get_event", 1, ["live", 1]],
+               ["replace", 1, ["live", 0], [None, BASE + 8 * SEC, 0, n]], ["touch", ["obj", "passed", 0], "data", 0],
+               ["get", 1, -1, None, None], ["delete_bucket", 2], ["create", 2, [1, 1, 1, 2, 3, n2]], ["metadata", 2]]
+        out.append((ops, univ))
+    big = [[None, BASE + (j % 9) * SEC, (j % 3) * SEC, RICH_LABELS[j % len(RICH_LABELS)] if j in (50, 210, 229) else 1 + j % 5]
+           for j in range(230)]
+    out.append(([["create", 1, m], ["insert", 1, [None, BASE, SEC, 1]], ["insert_many", 1, big], ["count", 1, None, None],
+                 ["get", 1, 3, None, None]], [1, MISSING_BUCKET]))
     return out
 
 
